@@ -223,7 +223,9 @@ impl<'a> From<Value<'a>> for NaiveDateTime {
         if let ValueInner::Datetime(mut v) = val.0 {
             // the time part is omitted when it is all zero (4-byte form)
             assert!(v.len() == 4 || v.len() == 7 || v.len() == 11);
-            let has_time = v.len() != 4;
+            // `v` shrinks as it is read: remember which form this is
+            let len = v.len();
+            let has_time = len != 4;
             if let Some(d) = NaiveDate::from_ymd_opt(
                 i32::from(v.read_u16::<LittleEndian>().unwrap()),
                 u32::from(v.read_u8().unwrap()),
@@ -239,7 +241,7 @@ impl<'a> From<Value<'a>> for NaiveDateTime {
                     (0, 0, 0)
                 };
 
-                let d = if v.len() == 11 {
+                let d = if len == 11 {
                     let us = v.read_u32::<LittleEndian>().unwrap();
                     d.and_hms_micro_opt(h, m, s, us)
                 } else {
@@ -259,7 +261,9 @@ use std::time::Duration;
 impl<'a> From<Value<'a>> for Duration {
     fn from(val: Value<'a>) -> Self {
         if let ValueInner::Time(mut v) = val.0 {
-            assert!(v.is_empty() || v.len() == 8 || v.len() == 12);
+            // `v` shrinks as it is read: remember which form this is
+            let len = v.len();
+            assert!(len == 0 || len == 8 || len == 12);
 
             if v.is_empty() {
                 return Duration::from_secs(0);
@@ -274,7 +278,7 @@ impl<'a> From<Value<'a>> for Duration {
             let hours = u64::from(v.read_u8().unwrap());
             let minutes = u64::from(v.read_u8().unwrap());
             let seconds = u64::from(v.read_u8().unwrap());
-            let micros = if v.len() == 12 {
+            let micros = if len == 12 {
                 v.read_u32::<LittleEndian>().unwrap()
             } else {
                 0
